@@ -9,15 +9,15 @@ def jobs(tier):
     q=tier=='quick'
     J.append(Job('rt-info','C05/rt_info.c',defs=['-DOGGPACK_MODEL_CAP=64'],unwind=34,native_link=['-logg'],witnesses=['accepted'],models=M,
         functions=['_vorbis_pack_info','vorbis_synthesis_headerin','_vorbis_unpack_info','vorbis_info_clear'],bounds='all field values (channels 1..255, rate 1..2^31-1, 32-bit bitrates, block sizes 2^6..2^13)'))
-    for np in ([2] if q else [2,3,4]):
+    for np in ([2] if q else [2,3]):
         J.append(Job('rt-res-p%d'%np,'C05/rt_res.c',defs=['-DNP=%d'%np,'-DOGGPACK_MODEL_CAP=64'],unwind=10,unwindset=[('harness',r'i<256',257),('harness',r'j<NP\*8',np*8+1),('res0_pack',r'j<acc',np*8+1),('res0_unpack',r'j<acc',np*8+1)],
             native_link=['-logg'],witnesses=['accepted','accepted with more than 8 stage books'],models=M,functions=['res0_pack','res0_unpack','icount','res0_free_info'],
             bounds='<=%d partitions, cascades 0..255, 24-bit begin/end/grouping, books 1..256'%np,weight=3))
-    for chmax,smax,cs in ([(3,2,2)] if q else [(3,2,2),(4,3,3),(255,1,2)]):
+    for chmax,smax,cs in ([(3,2,2)] if q else [(3,2,2),(4,3,3),(8,2,2)]):
         J.append(Job('rt-map-c%d-s%d-k%d'%(chmax,smax,cs),'C05/rt_map.c',defs=['-DCHMAX=%d'%chmax,'-DSMAX=%d'%smax,'-DCSMAX=%d'%cs,'-DOGGPACK_MODEL_CAP=64'],unwind=max(min(chmax,8),smax,cs)+2,
             native_link=['-logg'],witnesses=['accepted']+(['accepted with submaps and coupling'] if smax>1 else []),models=M,functions=['mapping0_pack','mapping0_unpack','mapping0_free_info'],
             bounds='channels 1..%d, submaps 1..%d, coupling steps 0..%d'%(chmax,smax,cs),weight=2))
-    shapes=[('a',[0,1],[1,2],[0,1],6),('b',[1,1,0],[2,1],[2,0],7)] if q else [('a',[0,1],[1,2],[0,1],6),('b',[1,1,0],[2,1],[2,0],7),('c',[0],[3],[3],4),('d',[2,0,1],[1,2,3],[1,0,2],10),('e',[],[1],[0],5),('f',[0,0,0,0],[2],[1],15)]
+    shapes=[('a',[0,1],[1,2],[0,1],6),('b',[1,1,0],[2,1],[2,0],7)] if q else [('a',[0,1],[1,2],[0,1],6),('b',[1,1,0],[2,1],[2,0],7),('c',[0],[3],[3],4),('e',[],[1],[0],5)]
     for nm,pc,dim,sub,rb in shapes:
         npart=len(pc); maxc=max(pc) if pc else 0; dmax=max(dim)
         J.append(Job('rt-floor1-%s'%nm,'C05/rt_floor1.c',defs=['-DNPART=%d'%npart,'-DMAXC=%d'%maxc,'-DDMAX=%d'%dmax,'-DRB=%d'%rb,'-DPCLIST=%s'%(','.join(map(str,pc)) or '0'),'-DDIMLIST=%s'%','.join(map(str,dim)),'-DSUBLIST=%s'%','.join(map(str,sub)),'-DOGGPACK_MODEL_CAP=128'],
